@@ -104,6 +104,10 @@ HARNESSES = {
     "u02k_apply_n_total": {"crate": "automerge", "file": "rust/automerge/src/storage/parse.rs", "fn": "apply_n", "mode": "bounded", "bound": "every count (all usize) over a 4-byte input, element parser take1 (unwind 8: the count is bounded by the input)", "timeout_s": 900},
     "u15_try_load_total": {"crate": "automerge", "file": "rust/automerge/src/op_set2/op_set/op_iter.rs", "fn": "OpId::try_load, ObjId::try_load, ElemId::try_load", "mode": "complete",
                            "bound": "all Option<u32 actor index> x Option<i64 counter> (loop-free)"},
+    "u08_width_single_scalar": {"crate": "automerge", "file": TYPES, "fn": "TextEncoding::width", "mode": "complete",
+                                "bound": "every `char` as a one-scalar string, encodings UTF-8 / code point / UTF-16 (loops bounded by the 4-byte encoding); grapheme clusters not covered"},
+    "u17_from_raw_string_valid": {"crate": "automerge", "file": "rust/automerge/src/op_set2/types.rs", "fn": "ScalarValue::from_raw (string arm)", "mode": "bounded",
+                                  "bound": "all string values of <= 4 raw bytes, any declared metadata length"},
     "u15_raw_read_bytes": {"crate": "automerge", "file": "rust/automerge/src/columnar/encoding/raw.rs", "fn": "RawDecoder::read_bytes", "mode": "bounded",
                            "bound": "8-byte buffer, every offset inside it, every length < 2^60 (the range of a value-metadata length)"},
     # ---- U12 range normalisation
@@ -212,7 +216,7 @@ PROPERTIES.update({
     "C37": {
         "level": "proof",
         "verus": [("u04_ids", ["exid_to_opid", "op_cursor_to_opid", "new", "get_actor_safe"]), ("u16_autocommit", ["ensure_transaction_open", "commit_with", "empty_change", "ensure_transaction_closed"])],
-        "kani": ["u04_opid_new", "u12_normalize_range"],
+        "kani": ["u04_opid_new", "u12_normalize_range", "u08_width_single_scalar"],
         "not_under_contract": ["every other public entry point", "the ~100 internal OpId::new call sites", "hydrate::Value::apply_patches"],
         "assumptions": ["a document has at most u32::MAX actors"],
         "explanation": "For the id/cursor argument conversions and list-range normalisation only: normalize_range is proved (Kani, complete over all pairs of bounds) never to panic and to return exactly "
@@ -227,7 +231,7 @@ PROPERTIES.update({
         "level": "proof",
         "verus": [("u02_parse", "*"), ("u01_bloom", ["parse", "get_probes", "contains_hash", "add_hash", "set_bit"]), ("u04_ids", ["exid_to_opid", "op_cursor_to_opid", "new"]),
                   ("u04c_codecs", ["try_from", "parse_0"]), ("u06v_hexane_str", "*"), ("u15_colids", ["try_next", "try_load", "new", "root", "from"])],
-        "kani": ["u15_try_load_total", "u15_raw_read_bytes", "u02k_length_prefixed_total", "u02k_apply_n_total", "u06_codec_reads_agree", "u01_parse_wf_quick", "u01_parse_wf_thorough", "u01_query_total", "u03_header_parse_q", "u03_header_parse_t", "u03_chunktype_codes",
+        "kani": ["u15_try_load_total", "u15_raw_read_bytes", "u17_from_raw_string_valid", "u02k_length_prefixed_total", "u02k_apply_n_total", "u06_codec_reads_agree", "u01_parse_wf_quick", "u01_parse_wf_thorough", "u01_query_total", "u03_header_parse_q", "u03_header_parse_t", "u03_chunktype_codes",
                  "u04_exid_try_from_total_q", "u04_exid_try_from_total_t", "u04_cursor_from_str_total_q",
                  "u05_flags_parse_bytes",
                  "u06_int_unpack_total", "u06_narrow_unpack_total", "u06_string_unpack_q", "u06_string_unpack_t", "u06_string_unpack_huge_len",
@@ -292,7 +296,7 @@ PROPERTIES.update({
     "C39": {
         "level": "proof",
         "verus": [("u02_parse", ["utf_8", "take_n"]), ("u06v_hexane_str", "*")],
-        "kani": ["u06_codec_reads_agree", "u06_string_unpack_q", "u06_string_unpack_t", "u06_rle_segment_utf8"],
+        "kani": ["u06_codec_reads_agree", "u06_string_unpack_q", "u06_string_unpack_t", "u06_rle_segment_utf8", "u17_from_raw_string_valid"],
         "not_under_contract": ["the global invariant 'every unchecked unpack is dominated by a checked pass over the same bytes' (hexane columns, bundles)", "BundleStorage::verify", "Column::load validation walk", "change_graph / columns.rs string reads"],
         "trusted": ["std::str::from_utf8 / String::from_utf8 validators (uninterpreted `valid_utf8` in the Verus unit)"],
         "explanation": "Verus proves parse::utf_8 only ever builds a String from bytes the std validator accepted (any length); on the real hexane <String as RleValue>::{try_unpack, unpack, value_len} Verus proves, for buffers of ANY length "
